@@ -44,6 +44,11 @@ type skel struct {
 	calls   *regexp.Regexp
 	assigns *regexp.Regexp
 	returns bool
+	// single assignments "assign <lhs> <op> <rhs>;" are also recorded for specs whose `calls` pattern
+	// mentions "assign " explicitly and matches that text (work package C19)
+	callAssigns bool
+	// x++ / x-- statements likewise only for specs whose pattern mentions `\+\+` or `--`
+	incdecs bool
 }
 
 // exprFacts lists sync-relevant facts inside an expression (receives, interesting calls, func literals).
@@ -130,6 +135,12 @@ func (k *skel) stmt(s ast.Stmt) []string {
 		for _, r := range x.Rhs {
 			out = append(out, k.exprFacts(r)...)
 		}
+		if k.callAssigns && len(x.Lhs) == 1 && len(x.Rhs) == 1 {
+			f := "assign " + exprStr(k.fset, x.Lhs[0]) + " " + x.Tok.String() + " " + exprStrShort(k.fset, x.Rhs[0]) + ";"
+			if k.calls.MatchString(f) {
+				out = append(out, f)
+			}
+		}
 		if k.assigns != nil {
 			var ls, rs []string
 			for _, l := range x.Lhs {
@@ -147,6 +158,10 @@ func (k *skel) stmt(s ast.Stmt) []string {
 	case *ast.DeclStmt:
 		return k.exprFacts(x)
 	case *ast.IncDecStmt:
+		// recorded only when the spec's `calls` pattern asks for it (e.g. `\+\+$`)
+		if f := exprStr(k.fset, x.X) + x.Tok.String(); k.incdecs && k.calls.MatchString(f) {
+			return []string{"incdec " + f}
+		}
 		return nil
 	case *ast.GoStmt:
 		if fl, ok := x.Call.Fun.(*ast.FuncLit); ok {
@@ -251,6 +266,20 @@ func leanStr(s string) string {
 	return `"` + s + `"`
 }
 
+// srcSpec emits the printed source text of a function body (whitespace-normalised) as a Lean string:
+// the tie of last resort for code outside the translated subset (e.g. float arithmetic).
+type srcSpec struct{ lean, dir, name string }
+
+func emitSrc(b *strings.Builder, sp srcSpec) {
+	p := loadPkg(sp.dir)
+	fd, ok := p.funcs[sp.name]
+	if !ok || fd.Body == nil {
+		fmt.Fprintf(b, "/-- `%s` `%s` not found. -/\ndef %s : String := \"<missing>\"\n\n", sp.dir, sp.name, sp.lean)
+		return
+	}
+	fmt.Fprintf(b, "/-- source text of the body of `%s` `%s` -/\ndef %s : String := %s\n\n", sp.dir, sp.name, sp.lean, leanStr(exprStr(p.fset, fd.Body)))
+}
+
 func emitSkel(b *strings.Builder, sp skelSpec) {
 	p := loadPkg(sp.dir)
 	fd, ok := p.funcs[sp.name]
@@ -262,7 +291,8 @@ func emitSkel(b *strings.Builder, sp skelSpec) {
 	if sp.calls != "" {
 		pat += "|" + sp.calls
 	}
-	k := &skel{fset: p.fset, calls: regexp.MustCompile(pat)}
+	k := &skel{fset: p.fset, calls: regexp.MustCompile(pat), callAssigns: strings.Contains(sp.calls, "assign "),
+		incdecs: strings.Contains(sp.calls, `\+\+`) || strings.Contains(sp.calls, "--")}
 	if sp.assigns != "" {
 		k.assigns = regexp.MustCompile(sp.assigns)
 	}
